@@ -96,7 +96,7 @@ const (
 
 // Marshal encodes the TransportLayerNack in binary
 func (p TransportLayerNack) Marshal() ([]byte, error) {
-	if len(p.Nacks)+tlnLength > math.MaxUint8 {
+	if len(p.Nacks)+tlnLength > math.MaxUint16 {
 		return nil, errTooManyReports
 	}
 
